@@ -1973,6 +1973,8 @@ def pickle_state(cls: ast.ClassDef, info: 'ClassInfo', classes: dict[str, 'Class
         raise TranslateError(f'{lab}: unexpected signature of __getstate__/__setstate__')
     tuples: dict[str, list[ast.expr]] = {}
     returns: list[list[ast.expr]] = []
+    ret_branch: list[str] = []           # round 5: where each return sits: top | body | orelse (of the one `if`)
+    the_if: list[ast.If] = []
 
     def elems(e: ast.expr) -> list[ast.expr]:
         if isinstance(e, ast.Name) and e.id in tuples:
@@ -1989,7 +1991,7 @@ def pickle_state(cls: ast.ClassDef, info: 'ClassInfo', classes: dict[str, 'Class
                 out.append(x)
         return out
 
-    def scan_get(body: list[ast.stmt], depth: int) -> None:
+    def scan_get(body: list[ast.stmt], depth: int, branch: str = 'top') -> None:
         for st in body:
             if isinstance(st, ast.Expr) and isinstance(st.value, ast.Constant):
                 continue
@@ -2001,10 +2003,12 @@ def pickle_state(cls: ast.ClassDef, info: 'ClassInfo', classes: dict[str, 'Class
                 raise TranslateError(f'{lab}.__getstate__: unrecognised assignment `{ast.unparse(st)[:50]}`')
             if isinstance(st, ast.Return) and st.value is not None:
                 returns.append(elems(st.value))
+                ret_branch.append(branch)
                 continue
-            if isinstance(st, ast.If) and depth == 0:
-                scan_get(st.body, 1)
-                scan_get(st.orelse, 1)
+            if isinstance(st, ast.If) and depth == 0 and not the_if:
+                the_if.append(st)
+                scan_get(st.body, 1, 'body')
+                scan_get(st.orelse, 1, 'orelse')
                 continue
             raise TranslateError(f'{lab}.__getstate__: unsupported statement `{ast.unparse(st)[:50]}`')
     scan_get(gs.body, 0)
@@ -2019,6 +2023,19 @@ def pickle_state(cls: ast.ClassDef, info: 'ClassInfo', classes: dict[str, 'Class
         return names.pop()
     puts = sorted(([field_of(e) for e in r] for r in returns), key=len)
     put_long, put_short = puts[-1], puts[0]
+    # round 5: WHEN the long form is taken (the test of the `if`, oriented by the branch the long return sits in)
+    long_test: Optional[ast.expr] = None
+    if len(returns) == 2:
+        if not the_if or len(returns[0]) == len(returns[1]):
+            raise TranslateError(f'{lab}.__getstate__: two returns but no `if` choosing between a long and a short state')
+        k_long = 0 if len(returns[0]) > len(returns[1]) else 1
+        bl, bs = ret_branch[k_long], ret_branch[1 - k_long]
+        if bl == 'body' and bs in ('orelse', 'top'):
+            long_test = the_if[0].test
+        elif bs == 'body' and bl in ('orelse', 'top'):
+            long_test = ast.UnaryOp(op=ast.Not(), operand=the_if[0].test)
+        else:
+            raise TranslateError(f'{lab}.__getstate__: cannot tell which branch returns the long state ({bl}/{bs})')
 
     state = ss.args.args[1].arg
     get_short: list[str] = []
@@ -2061,8 +2078,96 @@ def pickle_state(cls: ast.ClassDef, info: 'ClassInfo', classes: dict[str, 'Class
             defaults[f] = ast.unparse(st.value)
         if sorted(defaults) != sorted(get_tail):
             raise TranslateError(f'{lab}.__setstate__: the short form restores {sorted(defaults)}, the long form {sorted(get_tail)}')
+    short_rows = _short_form_rows(lab, long_test, get_tail, defaults, info) if long_test is not None and rest is not None else []
+    if (long_test is None) != (rest is None):
+        raise TranslateError(f'{lab}: __getstate__ and __setstate__ disagree on whether there is a short state')
     return {'put': put_long, 'put_short': put_short if len(returns) == 2 else put_long, 'get': get_short + get_tail,
-            'get_short': get_short if rest is not None else get_short + get_tail, 'defaults': defaults}
+            'get_short': get_short if rest is not None else get_short + get_tail, 'defaults': defaults,
+            'tail': get_tail, 'short_rows': short_rows,
+            'long_test': ast.unparse(long_test) if long_test is not None else None}
+
+
+def _nnf_disjuncts(t: ast.expr, neg: bool = False) -> list[tuple[ast.expr, bool]]:
+    """The test as a disjunction of (atom, negated?) — `not` pushed inwards (De Morgan); a conjunction that remains is not
+    a disjunction of per-field tests and fails closed."""
+    if isinstance(t, ast.UnaryOp) and isinstance(t.op, ast.Not):
+        return _nnf_disjuncts(t.operand, not neg)
+    if isinstance(t, ast.BoolOp):
+        is_or = isinstance(t.op, ast.Or) != neg          # not (a and b) = not a or not b
+        if not is_or:
+            raise TranslateError(f'the long-form test contains a conjunction `{ast.unparse(t)[:60]}`')
+        out: list[tuple[ast.expr, bool]] = []
+        for v in t.values:
+            out += _nnf_disjuncts(v, neg)
+        return out
+    return [(t, neg)]
+
+
+def _short_form_rows(lab: str, long_test: ast.expr, tail: list[str], defaults: dict[str, str], info: 'ClassInfo') -> list[list]:
+    """Per optional field of the state: (field, type, its own disjuncts of the long-form test, the constant restored) —
+    Gen `<class>_short_rows`; meaning and theorem in SM/StorePickleShort{,Proofs}.v."""
+    ty_of = {'Optional[str]': 'TyOptStr', 'str': 'TyStr', 'float': 'TyFloat', 'int': 'TyInt'}
+    tests: dict[str, list[str]] = {f: [] for f in tail}
+
+    def int_const(e: ast.expr) -> Optional[int]:
+        if isinstance(e, ast.Constant) and type(e.value) is int:
+            return e.value
+        if isinstance(e, ast.UnaryOp) and isinstance(e.op, ast.USub) and isinstance(e.operand, ast.Constant) and type(e.operand.value) is int:
+            return -e.operand.value
+        return None
+
+    for atom, neg in _nnf_disjuncts(long_test):
+        fields = {_self_attr(n) for n in ast.walk(atom) if _self_attr(n) is not None}
+        if len(fields) != 1:
+            raise TranslateError(f'{lab}.__getstate__: disjunct `{ast.unparse(atom)[:60]}` of the long-form test reads {sorted(fields)}')
+        f = fields.pop()
+        if f not in tests:
+            continue              # a field of the fixed part steering the form: more long states, nothing is lost
+        ty = ty_of.get(info.ann.get(f) or '')
+        what: Optional[str] = None
+        if _self_attr(atom) == f and not neg:
+            what = 'TTruthy'
+        elif isinstance(atom, ast.Compare) and len(atom.ops) == 1:
+            op, left, right = atom.ops[0], atom.left, atom.comparators[0]
+            if neg:               # not (a == b)  =  a != b ;  not (a is None)  =  a is not None
+                op = {ast.Eq: ast.NotEq(), ast.Is: ast.IsNot()}.get(type(op))      # type: ignore[assignment]
+            if isinstance(op, ast.IsNot) and _self_attr(left) == f and isinstance(right, ast.Constant) and right.value is None:
+                what = 'TNotNone'
+            elif isinstance(op, ast.NotEq) and _self_attr(left) == f:
+                c = int_const(right)
+                if c is not None and ty == 'TyInt':
+                    what = f'(TNeqInt ({c})%Z)'
+                elif ty == 'TyFloat' and (c == 0 or (isinstance(right, ast.Constant) and type(right.value) is float and right.value == 0.0)):
+                    what = 'TNeqZeroNum'
+            elif isinstance(op, ast.NotEq) and isinstance(left, ast.JoinedStr) and len(left.values) == 1 \
+                    and isinstance(left.values[0], ast.FormattedValue) and _self_attr(left.values[0].value) == f \
+                    and left.values[0].conversion == -1 and left.values[0].format_spec is not None \
+                    and ast.unparse(left.values[0].format_spec) == "f'g'" \
+                    and isinstance(right, ast.Constant) and right.value == '0':
+                what = 'TFmtNotZero'
+        if what is None:
+            raise TranslateError(f'{lab}.__getstate__: unrecognised disjunct `{"not " if neg else ""}{ast.unparse(atom)[:60]}` of the long-form test')
+        tests[f].append(what)
+    rows = []
+    for f in tail:
+        ty = ty_of.get(info.ann.get(f) or '')
+        if ty is None:
+            raise TranslateError(f'{lab}: optional state field {f} has the unmodelled type `{info.ann.get(f)}`')
+        d = defaults[f].replace(' ', '')
+        if d == 'None':
+            dv = 'DNone'
+        elif d in ("''", '""'):
+            dv = 'DEmptyStr'
+        elif ty == 'TyFloat' and d in ('0.0', '0', '0.'):
+            dv = 'DFloatZero'
+        elif ty == 'TyFloat' and d in ('-0.0', '-0.'):
+            dv = 'DFloatNegZero'
+        elif re.fullmatch(r'-?\d+', d):
+            dv = f'(DIntC ({int(d)})%Z)'
+        else:
+            raise TranslateError(f'{lab}.__setstate__: unmodelled default `{defaults[f]}` of {f}')
+        rows.append([f, ty, tests[f], dv])
+    return rows
 
 
 # ---------------------------------------------------------------------------------------------- main
@@ -2092,7 +2197,7 @@ def translate() -> tuple[str, dict]:
     if len(set(labels)) != len(labels):
         raise TranslateError(f'duplicate census labels {labels}')
     lines = ['(* GENERATED by translate/c09_copy.py from /repo/src/srctools/vmf.py, keyvalues.py. Do not edit. *)',
-             'From Coq Require Import List String Bool.', 'From SV Require Import SM.StoreCopy SM.StoreCopyFlow SM.KvAdd.',
+             'From Coq Require Import List String Bool ZArith.', 'From SV Require Import SM.StoreCopy SM.StoreCopyFlow SM.KvAdd SM.StorePickleShort.',
              'Import ListNotations.', 'Open Scope string_scope.', '']
     side: dict = {'classes': labels, 'census': {}, 'kv': kv, 'digests': {}, 'sources': {}, 'builder': {}}
     for c in censuses:
@@ -2132,7 +2237,11 @@ def translate() -> tuple[str, dict]:
     lines += [f'Definition output_state_put : list string := {sl(ps["put"])}.',
               f'Definition output_state_get : list string := {sl(ps["get"])}.',
               f'Definition output_state_put_short : list string := {sl(ps["put_short"])}.',
-              f'Definition output_state_get_short : list string := {sl(ps["get_short"])}.']
+              f'Definition output_state_get_short : list string := {sl(ps["get_short"])}.',
+              f'Definition output_state_tail : list string := {sl(ps["tail"])}.',
+              'Definition output_short_rows : list srow := [',
+              ';\n'.join('  ("%s", %s, [%s], %s)' % (f, ty, '; '.join(ts), dv) for f, ty, ts, dv in ps['short_rows']),
+              '].']
     lines.append('Definition cond_rows : list (string * string * how * how) := [')
     lines.append(';\n'.join(f'  ("{c.label}", "{f}", {a}, {b})' for c in censuses for f, (a, b) in sorted(c.cond_parts.items())))
     lines.append('].')
